@@ -108,7 +108,7 @@ std::string ConvertID(std::string_view id, const Syntax syntax) {
   case TokenID::MULTIPLY: return R"( \multiply )";
 
   case TokenID::GREATER: return R"( \gr )";
-  case TokenID::LESSER: return R"( \less )";
+  case TokenID::LESSER: return R"( \ls )";
   case TokenID::GREATER_OR_EQ: return R"( \ge )";
   case TokenID::LESSER_OR_EQ: return R"( \le )";
 
